@@ -166,8 +166,10 @@ def gen_program(rng, fam, cfg):
             # delay 0 and gets a fresh deadline at every resumption): outside C14's non-yielding class, never
             # returns to the host by design (DESIGN.md 12.2, "observed and not counted")
             body.insert(rng.randint(0, len(body)), ("thread", noop))
-        elif r < 0.4:
-            body.append(("err",))
+        elif r < 0.55:
+            # a loop body that raises a recoverable script error in every round (HandleScriptException, then
+            # the interpreter loop is re-entered): must still be interrupted
+            body.insert(rng.randint(0, len(body)), ("err",))
         main = filler(rng, 0, 2) + loop_of(rng, body) + [("end",)]
     elif fam == "fin":
         k = rng.choice([1, 2, 3]) * per // 4 + rng.randint(1, 12)
@@ -236,7 +238,8 @@ def gen_program(rng, fam, cfg):
 FAMS = ["loop", "loop", "fin", "chain", "chain", "mutual", "pingpong", "wakeabort"]
 
 
-def scenario(rng, fam=None):
+def scenario(rng, fam=None, combo=None):
+    """combo: 6 bits = Output, Warn, Debug, Error, Verbose attached, developer mode (None = random)"""
     _G[0] = 0
     fam = fam or rng.choice(FAMS)
     cfg = {"prot": 1, "max": rng.choice([1, 10, 100]), "step": rng.choice([1, 2, 7]),
@@ -263,11 +266,13 @@ def scenario(rng, fam=None):
     labels.append([("mark", 3), ("end",)])
     text, absp = render(labels)
     script = "script m %s ## %s" % (text.encode().hex(), absp)
-    streams = [rng.choice([0, 1]) for _ in range(4)]      # Warn, Debug, Error, Verbose
+    if combo is None:
+        combo = rng.randrange(64)
+    streams = [(combo >> i) & 1 for i in range(5)]      # Output, Warn, Debug, Error, Verbose
     lines = ["c14reset"]
     for i, v in enumerate(streams):
-        lines.append("cfg stream %d %d" % (i + 1, v))
-    lines += ["cfg developer %d" % rng.choice([0, 1]), "cfg depth %d" % cfg["depth"],
+        lines.append("cfg stream %d %d" % (i, v))
+    lines += ["cfg developer %d" % ((combo >> 5) & 1), "cfg depth %d" % cfg["depth"],
               "cfg maxexec %d" % cfg["max"], "cfg loopprot %d" % cfg["prot"], script,
               "call m l%d" % sent, "cfg clockstep %d" % cfg["step"]]
     rounds = rng.choice([1, 1, 2, 3])          # several interruptions in a row
